@@ -1,13 +1,18 @@
 import Gbo.Proofs.Transform
 import Gbo.Proofs.ScaleIsect
+import Gbo.Proofs.MapRun
 /-
   C08 — results commute with exact similarity transforms.  Proved: the two exact predicates everything
   else is built from — coordinate comparisons and the orientation sign, hence the whole event order — are
-  unchanged by scaling with any positive factor (in particular 2^k) and by translation.  The rounded
-  arithmetic of the intersection routine is scale-covariant only for powers of two and in the absence of
-  underflow; that and the equivariance of the whole pipeline are decided per run (bit-identical mapped
-  results for 2^k scaling with k in ±200 and for integer translations on exact runs; regions for the eight
-  axis symmetries).
+  unchanged by scaling with any positive factor (in particular 2^k) and by translation; the rounded
+  intersection routine commutes with every scale factor the arithmetic handles exactly; and, on top of
+  these, the **whole run** (`fill_queue`, the sweep, `connect_edges`, the assembly) is equivariant under every
+  map of the plane that the two orders and the arithmetic cannot tell from the identity
+  (`C08_run_equivariant`), which scaling by c > 0 is for exact arithmetic (`C08_exact_scaling`) and for any
+  arithmetic that scales exactly by c.  Binary floating point scales exactly by powers of two only while
+  nothing over- or underflows (`rndBin` has a smallest exponent), and the eight axis symmetries are not
+  order preserving, so those cases are decided per run (bit-identical mapped results for 2^k scaling with
+  k in ±200 and for integer translations on exact runs; regions for the eight axis symmetries).
 -/
 namespace Gbo.Props
 open Gbo
@@ -45,5 +50,40 @@ theorem C08_intersection_scale (ar : Arith) (c : Rat) (h : ScalesExactly ar c) (
 
 /-- the hypothesis is satisfiable: exact arithmetic scales exactly by every factor -/
 example (c : Rat) : ScalesExactly Arith.exact c := scalesExactly_exact c
+
+/-- **C08, the whole run (every input, every operation).**  Let `f` be a map of the plane that acts on each
+    coordinate separately, preserves the coordinate order and the orientation sign, fixes the origin, and
+    commutes with the arithmetic's intersection routine and one-ulp step (`RunMap ar f gx gy`).  Then
+    `boolean_operation` on the mapped operands behaves exactly as on the original ones — it returns, or fails
+    with the same failure — and the result is the original result with every ring mapped by `f`: same
+    polygons in the same order, same vertices in the same order, same number of processed events.  Proof:
+    both orders (events, segments) are invariant, so the queue, the sweep line and every index-level step of
+    the mapped run are *equal* to those of the original run (`fillQueue_map`, `subdivide_map`,
+    `connectEdges_map`); only the points stored in the arena differ, by `f`. -/
+theorem C08_run_equivariant (ar : Arith) (f : Pt → Pt) (gx gy : Rat → Rat) (h : RunMap ar f gx gy) (cfg : Cfg)
+    (subject clipping : MPoly) (op : Op) :
+    booleanOperation ar cfg (subject.map (mapPoly f)) (clipping.map (mapPoly f)) op =
+      exMap (mapOut f) (booleanOperation ar cfg subject clipping op) :=
+  booleanOperation_map h cfg subject clipping op
+
+/-- the hypotheses are met by scaling with `c > 0` whenever the arithmetic scales exactly by `c` -/
+theorem C08_scaling_is_runMap (ar : Arith) (c : Rat) (hc : 0 < c) (hs : ScalesExactly ar c)
+    (hn : ∀ x, ar.nextUp (c * x) = c * ar.nextUp x) :
+    RunMap ar (scalePt c) (fun x => c * x) (fun y => c * y) :=
+  scale_runMap ar c hc hs hn
+
+/-- **C08 for the algorithm itself (exact arithmetic), every positive scale factor, every input:** the result
+    of the scaled operands is the scaled result -/
+theorem C08_exact_scaling (c : Rat) (hc : 0 < c) (cfg : Cfg) (subject clipping : MPoly) (op : Op) :
+    booleanOperation Arith.exact cfg (subject.map (mapPoly (scalePt c))) (clipping.map (mapPoly (scalePt c))) op =
+      exMap (mapOut (scalePt c)) (booleanOperation Arith.exact cfg subject clipping op) :=
+  booleanOperation_map (scale_runMap Arith.exact c hc (scalesExactly_exact c) (fun _ => rfl)) cfg subject clipping op
+
+/-- the whole sweep, same statement one level down (arena, `sorted_events`, counters) -/
+theorem C08_subdivide_equivariant (ar : Arith) (f : Pt → Pt) (gx gy : Rat → Rat) (h : RunMap ar f gx gy) (cfg : Cfg)
+    (fq : FQ) (sb cb : BBox) (op : Op) :
+    subdivide ar cfg (mapFQ f fq) (mapBB gx gy sb) (mapBB gx gy cb) op =
+      exMap (mapSweepOut f) (subdivide ar cfg fq sb cb op) :=
+  subdivide_map h cfg fq sb cb op
 
 end Gbo.Props
